@@ -7,7 +7,7 @@ import json, os, threading, time, vlib, tracelib
 LEVEL = "model_checking"
 PID = "C14"
 
-NEED_CLASSES = ["SendCoins/ok", "SendCoins/insufficient", "SendCoins/vesting", "SendCoins/restricted",
+NEED_CLASSES = ["AnteTx/ok", "AnteTx/funds", "AnteTx:collector-cosigner", "AnteTx:collector-first", "AnteTx:others", "SendCoins/ok", "SendCoins/insufficient", "SendCoins/vesting", "SendCoins/restricted",
                 "SendCoinsUnrestricted/ok", "SendCoinsUnrestricted/insufficient", "DeductFee/ok", "DeductFee/funds",
                 "InputOutputCoins/ok", "InputOutputCoins/insufficient", "MintCoins/ok", "BurnCoins/ok",
                 "BurnCoins/vesting", "AddCoins/ok", "SubtractCoins/ok", "SetCoins/ok", "RecomputeSupply/ok", "Time/ok"]
@@ -102,6 +102,10 @@ def account(ctx, label, job, cls, sim):
             x = b[k]
             key = "%s/%s" % (x.get("act"), x.get("reply"))
             cls[key] = cls.get(key, 0) + 1
+            if x.get("act") == "AnteTx" and x.get("reply") == "ok":
+                sg = x.get("signers", [])
+                who = "collector-cosigner" if "coll" in sg[1:] else "collector-first" if sg[0] == "coll" else "others"
+                cls["AnteTx:" + who] = cls.get("AnteTx:" + who, 0) + 1
     s = vlib.handle_driver_results(ctx, res)
     if s.get("flaky"):
         raise vlib.Inconclusive("FLAKY", "%s: %d behaviours failed once and passed on a fresh keeper" % (label, s["flaky"]))
@@ -120,7 +124,7 @@ def app_record(ctx, binary, blocks):
 def app_validation(ctx, res, lines):
     s = vlib.handle_driver_results(ctx, res)
     ctx.cov["app_outcomes"] = {k[2:]: v for k, v in s.items() if k.startswith("n_")}
-    need = ["n_ok", "n_fail:funds", "n_deposit-lock", "n_deposit-refund"]
+    need = ["n_ok", "n_fail:funds", "n_deposit-lock", "n_deposit-refund", "n_collector-first-signer", "n_collector-cosigner"]
     if ctx.tier != "quick":
         need.append("n_fail:std.VestingLockedCoinsError")
     missing = [k for k in need if not s.get(k)]
@@ -141,7 +145,11 @@ def app_validation(ctx, res, lines):
         what = "an invariant of Bank.tla fails in the recorded state" if r.violated and "Accepted" not in str(r.violated) else \
                "the recorded %s is not explained by the bank operators" % bad.get("act", "?")
         kinds = sorted({(m.get("fn") or m.get("kind")) for x in blk if x.get("act") == "Tx" for m in x.get("msgs", [])})
-        ctx.violation("%s:app:%s:%s" % (PID, bad.get("act", "?"), "+".join(kinds)),
+        key = "%s:app:%s:%s" % (PID, bad.get("act", "?"), "+".join(kinds))
+        if any(x.get("act") == "Tx" and x.get("ante") and "coll" in x.get("signers", [])[1:] for x in blk):
+            # a signer of the block's transaction is the fee collector at position >= 1: the ante handler wrote a stale copy back
+            key = "%s:ante:collector-cosigner:fee-destroyed" % PID
+        ctx.violation(key,
                       "%s at line %d of the application trace (violated: %s)" % (what, k, r.violated),
                       {"trace": lines[:k], "failed_at": k})
     else:
